@@ -372,7 +372,7 @@ def _r4_set_backend(ctx):
                 if isinstance(n, ast.Subscript) and A.const_value(n.slice) == "current":
                     reads_state = True
         missing = {"name", "precision"} - attrs
-        if missing or not reads_state or "new_backend" not in roots:
+        if missing or not reads_state or "backend" not in roots:
             ctx.violated(r4, sb, guard.test, f"the condition that fires 'tensorlib_changed' does not compare {sorted(missing) or 'old vs new backend'}: a switch that only changes it leaves every cached tensor stale",
                          expected="(new.name != old.name) | (new.precision != old.precision)", found=A.short(cond_exprs[-1], 120), node=guard)
         else:
